@@ -1,7 +1,7 @@
 #!/bin/bash
-# tools/verify_seed.sh <ID> [n]  - confirm a sub-agent's seeded change in its scratch worktree /tmp/seed/<ID>:
+# tools/verify_seed.sh <ID> [n]  - confirm a sub-agent's seeded change in its scratch worktree $SEED_BASE/<ID> (default /tmp/seed):
 #   demo fails with the change, existing suite passes with it, demo passes without it. Then copy it to seeded/<ID>-<n>/.
-ID=$1; N=${2:-1}; W=/tmp/seed/$ID; OUT=/verif/seeded/$ID-$N
+ID=$1; N=${2:-1}; BASE=${SEED_BASE:-/tmp/seed}; W=$BASE/$ID; OUT=/verif/seeded/$ID-$N
 cd $W || exit 2
 test -s seed_out/patch.diff || { echo "no patch"; exit 2; }
 COMPILED=$(grep -E '^\+\+\+ b/.*\.(pyx|pxd|cpp|h)$' seed_out/patch.diff | wc -l)
@@ -9,14 +9,14 @@ rebuild() { if [ "$COMPILED" != 0 ]; then /venv/bin/python setup.py build_ext -i
 # make the working tree exactly "HEAD + the agent's patch" (concurrent agents once swapped changes through the shared stash)
 git checkout -- whatshap src && git apply seed_out/patch.diff || { echo "cannot apply seed_out/patch.diff"; exit 2; }
 rebuild || exit 2
-env -u PYTHONPATH /venv/bin/python seed_out/demo.py > /tmp/seed/$ID.demo_with.log 2>&1; WITH=$?
+env -u PYTHONPATH /venv/bin/python seed_out/demo.py > $BASE/$ID.demo_with.log 2>&1; WITH=$?
 SUITE=$(env -u PYTHONPATH -u WHATSHAP_VERIF_TRACE /venv/bin/python -m pytest -q -p no:cacheprovider --timeout=900 2>&1 | tail -1)
 # (git stash is shared between all worktrees of a repository: never use it while other agents work)
-git diff -- whatshap src > /tmp/seed/$ID.current.diff
-git apply -R /tmp/seed/$ID.current.diff || exit 2
+git diff -- whatshap src > $BASE/$ID.current.diff
+git apply -R $BASE/$ID.current.diff || exit 2
 rebuild
-env -u PYTHONPATH /venv/bin/python seed_out/demo.py > /tmp/seed/$ID.demo_without.log 2>&1; WITHOUT=$?
-git apply /tmp/seed/$ID.current.diff || exit 2
+env -u PYTHONPATH /venv/bin/python seed_out/demo.py > $BASE/$ID.demo_without.log 2>&1; WITHOUT=$?
+git apply $BASE/$ID.current.diff || exit 2
 rebuild
 echo "demo_with=$WITH demo_without=$WITHOUT suite='$SUITE' compiled_files=$COMPILED"
 mkdir -p $OUT && cp seed_out/patch.diff seed_out/demo.py $OUT/ && cp seed_out/notes.md $OUT/notes.md 2>/dev/null
